@@ -216,6 +216,23 @@ func weaken(r *rng, g *G) *G {
 			}
 		}
 	}
+	// sometimes drop nodes that are left without any incident edge (the result is still below g)
+	if r.n(2) == 0 {
+		incident := map[*N]bool{}
+		for _, n := range nodes {
+			ds, _ := escape.VerifOut(w, n)
+			for _, d := range ds {
+				incident[n] = true
+				incident[d] = true
+			}
+		}
+		for _, n := range nodes {
+			if !incident[n] && r.n(2) == 0 {
+				escape.VerifRawDelStatus(w, n)
+				escape.VerifRawDelEdgeKey(w, n)
+			}
+		}
+	}
 	closeRaw(w)
 	return w
 }
